@@ -467,6 +467,11 @@ def units(tier):
         if tier != 'quick':
             us.append(('dt', v))
         us.append(('zseg', v))
+    # the same Z-segment cases of version b right after those of version a in one process (what the validator looked up
+    # for one version must not answer for another one)
+    for a, b in zip(VERSIONS, VERSIONS[1:]):
+        us.append(('zseg-after', a, b))
+        us.append(('zseg-after', b, a))
     return us
 
 
@@ -480,6 +485,12 @@ def run_unit(unit, tier):
             segment_unit(unit[1], seg, res)
     elif unit[0] == 'zseg':
         zseg_unit(unit[1], tier, res)
+    elif unit[0] == 'zseg-after':
+        zseg_unit(unit[1], 'quick', Result())
+        zseg_unit(unit[2], 'quick', res)
+        for k in list(res.violations):
+            w = res.violations.pop(k)
+            res.violations['after-v%s|%s' % (unit[1], k)] = w
     else:
         datatype_unit(unit[1], res)
     res.expected_size = res.enumerated
